@@ -278,7 +278,7 @@ impl Property for C09 {
         vec!["K = 2 (the path-polytope code panics by design on labels >= 2)".into(), "label 1 is the closed side a.x <= b, label 0 the open side (documentation of evaluate_decision)".into()]
     }
     fn cases(&self, tier: Tier) -> usize {
-        tier.pick(12000, 60_000)
+        tier.pick(40000, 600_000)
     }
     fn strategy(&self, tier: Tier) -> BoxedStrategy<Case> {
         let maxd = tier.pick(4u32, 5u32);
